@@ -11,6 +11,7 @@ VM = 'yarel::vm::Vm::'
 def run(rep):
     w = rep.world('dev')
     rep.guard(m1, rep, w)
+    rep.guard(m8, rep, w)
     rep.guard(m2, rep, w)
     rep.guard(m3, rep, w)
     rep.guard(m4, rep, w)
@@ -562,3 +563,39 @@ def m7(rep, w):
         full = tt['else']
         full_ok = full_ok or any(full in dom.get(x, ()) for x in the)
     r.check(full_ok, 'the refusal is a catchable error', 'the frames-full edge of start_import_impl does not raise through try_handle_error', f.loc())
+
+
+def m8(rep, w):
+    """the module an import statement makes is the module of the path it names: the closure that runs the module body is built with the object
+    Vm::module answers for the import operand itself (the string StartImport read), not for a path remembered elsewhere - the module_path of a
+    compiled function that a cache hands out for byte-identical source belongs to another module, whose object would run this body too."""
+    r = rep.rule('M8', 'the module body runs in the module registered for the import operand (Vm::module of the string StartImport read)', floor=1)
+    f = w.require_fn(VM + 'start_import_impl', 'C14')
+    org = origins(f)
+    reads = {bi for bi, t in f.calls() if callee_name(t) == VM + 'read_string'}
+    mods = {bi: t for bi, t in f.calls() if callee_name(t) == VM + 'module'}
+    n = 0
+    for bi, t in f.calls():
+        nm = callee_name(t) or ''
+        if not (nm.endswith('new_root_obj_closure') or nm.endswith('ObjClosure::new')) or len(t['args']) < 2:
+            continue
+        n += 1
+        pl = op_place(t['args'][-1])
+        roots = org.get(pl['l'], ()) if pl is not None else ()
+        ok = bool(roots)
+        why = []
+        for q in roots:
+            if not (q[0][0] == 'call' and q[0][1] in mods):
+                ok = False
+                why.append('not the answer of Vm::module')
+                continue
+            a = op_place(mods[q[0][1]]['args'][1]) if len(mods[q[0][1]]['args']) > 1 else None
+            qs = org.get(a['l'], ()) if a is not None else ()
+            if not qs or not all(x[0][0] == 'call' and x[0][1] in reads and 'module_path' not in x for x in qs):
+                ok = False
+                why.append('Vm::module asked for a path that is not the import operand (%s)' % sorted({'.'.join(y for y in x[1:] if not y.startswith('@') and y != '*') or x[0][2].rsplit('::', 1)[-1] for x in qs if x[0][0] == 'call'} | {'argument' for x in qs if x[0][0] != 'call'}))
+        r.check(ok, 'start_import_impl: the body closure is built with Vm::module(import operand)',
+                'the closure that runs the module body gets a module that is %s: two import paths can end up as one module object, whose top-level code then runs once per path'
+                % '; '.join(sorted(set(why)) or ['unknown']), f.loc(t.get('sp')))
+    if n == 0:
+        raise Broken('C14', 'anchor', 'start_import_impl: construction of the module-body closure not found')
